@@ -53,6 +53,7 @@ def gen_segment_history(rng, n, strict=False, reject=False):
         if reject and rng.random() < .35:
             ops.append(rng.choice([
                 ['add_wrongclass'], ['set_wrongname', 'nk1_2' if seg != 'NK1' else 'pid_3', 'X'], ['add_otherlevel', name, val],
+                ['ctor_refused', name, rng.choice(['FOO', 'XYZ', 'Q1'])],
                 ['add_otherversion', name, val], ['del', '%s_%d' % (seg.lower(), 19)], ['set', 'foo_1', 'X'], ['set_elem_wrongname', name.lower()],
                 ['replace_otherlevel', name.lower(), val], ['add_overflow', '%s_1' % seg, '1'], ['set_invalid_strict', name.lower()],
                 ['datatype_populated', name.lower()], ['deli', name.lower(), 7], ['setparent_otherlevel', name, val], ['set_basedt_refused', name.lower()], ['set_basedt_refused', name.lower(), 'long'], ['children_assign_refused', name, val]]))
@@ -452,6 +453,10 @@ def run_history(h):
                 root.to_er7()
                 root.validate(return_errors=True) if not h['strict'] else None
             # ---- operations that must be rejected
+            elif kind == 'ctor_refused':
+                # an addition spelled as a constructor call, `Child(name, datatype=<one it cannot take>, parent=root)`: when the constructor
+                # raises, root lists what it listed before (an unknown datatype, a datatype STRICT does not let override, ...)
+                Child(op[1], datatype=op[2], parent=root, version=v, validation_level=lvl)
             elif kind == 'add_wrongclass':
                 root.add(Component('CX_1', version=v, validation_level=lvl))
             elif kind == 'set_wrongname':
